@@ -25,7 +25,9 @@ package main
 //        value / error kind / log. (For rt=diff cases the outcome is only counted.)
 
 import (
+	"flag"
 	"fmt"
+	"io"
 	"math"
 	"os"
 	"path/filepath"
@@ -723,7 +725,126 @@ func c08FormatFile(src, txt string) string {
 	return "ok"
 }
 
+// ---- the format tool on a directory tree (payload `FMT <variant>`): FormatFiles and the command-line entry Format
+//
+// The tree holds parseable, unparseable and empty .ecal files, a file in a sub-directory, a file with another
+// extension and a file with a restrictive mode; variants call tool.FormatFiles or tool.Format (through the package's
+// verif-tag setter of its os.Args copy) on the directory or on a symbolic link to it, with another extension, or
+// with -help. Expected: exactly the files with the extension that parse AND print are replaced by PrettyPrint's
+// text plus a newline; every other file keeps its bytes; every file keeps its mode. Result: fmt=ok | fmt=<what differs>.
+func c08FormatTree(variant int) string {
+	if c08Dir == "" {
+		d, err := os.MkdirTemp(".", "c08-format-")
+		if err != nil {
+			return "fmt=nodir"
+		}
+		c08Dir = d
+	}
+	root := filepath.Join(c08Dir, fmt.Sprintf("tree%d", variant))
+	os.RemoveAll(root)
+	defer os.RemoveAll(root)
+	link := root + "-link"
+	os.Remove(link)
+	defer os.Remove(link)
+	type file struct {
+		rel  string
+		data string
+		mode os.FileMode
+	}
+	files := []file{
+		{"a.ecal", "x:=1+2 *3 # c\nif x>1 {log(\"100%\")}", 0644},
+		{"bad.ecal", "if { a := ", 0644},
+		{"empty.ecal", "", 0644},
+		{"private.ecal", "a  :=  [1,2,3,4,5]", 0600},
+		{"sub/deep/b.ecal", "func f(a,b=1){return a % b}\nf(7)", 0644},
+		{"sub/bad2.ecal", "\"unterminated", 0644},
+		{"sub/c.txt", "a  +  b", 0644},
+		{"notes.ecal.bak", "a  +  b", 0644},
+	}
+	for _, f := range files {
+		p := filepath.Join(root, f.rel)
+		if err := os.MkdirAll(filepath.Dir(p), 0755); err != nil {
+			return "fmt=nomkdir"
+		}
+		if err := os.WriteFile(p, []byte(f.data), f.mode); err != nil {
+			return "fmt=nowrite"
+		}
+		os.Chmod(p, f.mode)
+	}
+	target, ext := root, ".ecal"
+	if variant%2 == 1 {
+		// (an ABSOLUTE target: FormatFiles hands the result of os.Readlink to filepath.Walk as it is, so a relative
+		// link is resolved against the working directory instead of the link's directory and the walk fails with
+		// "no such file" — nothing is written; observed, not part of the property)
+		abs, err := filepath.Abs(root)
+		if err != nil {
+			return "fmt=noabs"
+		}
+		if err := os.Symlink(abs, link); err != nil {
+			return "fmt=nosymlink"
+		}
+		target = link
+	}
+	help := false
+	switch variant / 2 {
+	case 0:
+		oldFlags := flag.CommandLine
+		flag.CommandLine = flag.NewFlagSet("ecal", flag.ContinueOnError)
+		flag.CommandLine.SetOutput(io.Discard)
+		err := tool.FormatFiles(target, ext)
+		flag.CommandLine = oldFlags
+		if err != nil {
+			return "fmt=error:" + oneLine(err.Error())
+		}
+	case 1, 2, 3:
+		if variant/2 == 2 {
+			ext = ".txt"
+		}
+		args := []string{"ecal", "format", "-dir", target, "-ext", ext}
+		if variant/2 == 3 {
+			args = append(args, "-help")
+			help = true
+		}
+		old := tool.VerifSetOsArgs(args)
+		oldFlags := flag.CommandLine
+		flag.CommandLine = flag.NewFlagSet("ecal", flag.ContinueOnError)
+		flag.CommandLine.SetOutput(io.Discard)
+		err := tool.Format()
+		flag.CommandLine = oldFlags
+		tool.VerifSetOsArgs(old)
+		if err != nil {
+			return "fmt=error:" + oneLine(err.Error())
+		}
+	}
+	for _, f := range files {
+		p := filepath.Join(root, f.rel)
+		want := f.data
+		if !help && strings.HasSuffix(f.rel, ext) {
+			if ast, err := c08Parse(f.data); err == nil && ast != nil {
+				if txt, err := parser.PrettyPrint(ast); err == nil {
+					want = txt + "\n"
+				}
+			}
+		}
+		got, err := os.ReadFile(p)
+		if err != nil {
+			return "fmt=missing:" + f.rel
+		}
+		if string(got) != want {
+			return "fmt=content:" + f.rel
+		}
+		if st, err := os.Stat(p); err != nil || st.Mode().Perm() != f.mode {
+			return "fmt=mode:" + f.rel
+		}
+	}
+	return "fmt=ok"
+}
+
 func c08Run(payload string) string {
+	if strings.HasPrefix(payload, "FMT ") {
+		v, _ := strconv.Atoi(strings.TrimPrefix(payload, "FMT "))
+		return c08FormatTree(v)
+	}
 	f := strings.SplitN(payload, " ", 3)
 	src := unhx(f[0])
 	ev := f[1] == "1" || f[1] == "3"
